@@ -160,6 +160,16 @@ def special_programs():
             funcs=[func("F", [], [if_([b(False), bad], [[ret(s("one"))], [ret(s("two"))]], [ret(s("else"))]), mark("never")])]))
         add("if-cond-" + nm, prog([mark("a"), if_([bad], [[mark("b")]], [mark("e")]), mark("c")]))
         add("while-cond-later-" + nm, prog([decl("C", b(True)), while_(var("C"), [mark("w"), ex(asg(var("C"), bad))]), mark("c")]))
+    # compound conditions: 且 / 或 short-circuit inside 如果 / 再如 / 每当 conditions (probe methods show what was evaluated)
+    probes = [func("PT", [], [mark("PT"), ret(b(True))]), func("PF", [], [mark("PF"), ret(b(False))]), func("PN", [], [mark("PN"), ret(num(3))])]
+    PT, PF, PN = call("PT"), call("PF"), call("PN")
+    for nm, cnd in (("and-tf", bin_("and", PT, PF)), ("and-ft", bin_("and", PF, PT)), ("or-tf", bin_("or", PT, PF)), ("or-ft", bin_("or", PF, PT)),
+                    ("and-or", bin_("or", bin_("and", PF, PT), PT)), ("or-and", bin_("and", bin_("or", PT, PF), PF)),
+                    ("and-nonbool-right", bin_("and", PT, PN)), ("and-nonbool-left", bin_("and", PN, PT)), ("or-nonbool-right-skipped", bin_("or", PT, PN)),
+                    ("and-cmp", bin_("and", bin_("gt", PN, num(1)), bin_("lt", PN, num(2))))):
+        add("cond-" + nm, prog([mark("a"), if_([cnd], [[mark("then")]], [mark("else")]), mark("c")], funcs=probes))
+        add("elif-cond-" + nm, prog([mark("a"), if_([b(False), cnd], [[mark("1")], [mark("then")]], [mark("else")]), mark("c")], funcs=probes))
+        add("while-cond-" + nm, prog([decl("I", num(0)), while_(bin_("and", bin_("lt", var("I"), num(2)), cnd), [ex(asg(var("I"), bin_("add", var("I"), num(1)))), mark("w")]), mark("c")], funcs=probes))
     add("elseif-cond-not-reached", prog([mark("a"), if_([b(True), num(1)], [[mark("1")], [mark("2")]]), mark("c")]))
     add("iter-not-collection", prog([mark("a"), iter_(["V"], num(5), [mark("b")]), mark("c")]))
     return P
